@@ -234,11 +234,11 @@ Definition apply_tfn (f : tfn) (i : tinfo) (row old : list Z) : outcome (list Z)
 
 (* the complete per-row path of next_interlaced_row_impl for a row of [width] pixels:
    output slice of output_line_size bytes, previously holding [old] *)
-Inductive rowres := ROk (out : list Z) | RErr (e : terr) | RPanic (site : nat).
+Inductive rowres := TROk (out : list Z) | TRErr (e : terr) | TRPanic (site : nat).
 
 Definition transform_row (i : tinfo) (t : Z) (row old : list Z) : rowres :=
   match create_transform_fn i t with
-  | Ok f => match apply_tfn f i row old with Ok o => ROk o | Panic p => RPanic p | Err _ => RPanic 0 end
-  | Err e => RErr e
-  | Panic p => RPanic p
+  | Ok f => match apply_tfn f i row old with Ok o => TROk o | Panic p => TRPanic p | Err _ => TRPanic 0 end
+  | Err e => TRErr e
+  | Panic p => TRPanic p
   end.
